@@ -12,7 +12,7 @@ ID = 'C15'
 CASE_TYPE = 'C15.case'
 EXTRA_IMPORTS = 'From PJ Require Import Model.Registry.\n'
 RULE = ('registration histories of 1..3 (quick) / 1..5 (thorough) operations over {add, add with explicit name, add_methods(Method), '
-        'add_methods(plain function), view with / without prefix (a fresh view class or one already registered elsewhere in the history; a member called `show` is inherited from one shared base view), function objects and Method objects may be registered more than once, a view may be derived from a view registered earlier, merge} on registries with prefix in {none, "", "a", "a.b"}, merged up to '
+        'add_methods(plain function), add_methods(several Methods / functions / registries in one call), view with / without prefix (a fresh view class or one already registered elsewhere in the history; a member called `show` is inherited from one shared base view), function objects and Method objects may be registered more than once, a view may be derived from a view registered earlier, merge} explicit names handed over as plain str, as members of a (str, Enum) class or as instances of a str subclass with its own __str__ / __format__; on registries with prefix in {none, "", "a", "a.b"}, merged up to '
         '3 levels deep, attached to either dispatcher (add_methods(registry) / add / view); small name pools so that collisions and '
         're-registrations occur; probed by dispatching a request for every registered name, every name one prefix segment away, the bare '
         'function and member names, private and non-callable member names. distinct = distinct (history, dispatcher kind); non-trivial = '
@@ -63,7 +63,28 @@ def rand_registry(rnd, depth, maxops, counter):
             ops.append(['view', rnd.choice(VPREFIXES), ms])
         else:
             ops.append(['merge', rand_registry(rnd, depth - 1, maxops, counter)])
+    ops = group_multi(rnd, ops, ('method', 'plain'))
     return [rnd.choice(PREFIXES), ops]
+
+
+def group_multi(rnd, ops, kinds):
+    """Hands runs of consecutive add_methods-able operations over in ONE add_methods(*args) call (a third of the runs)."""
+    out, run = [], []
+
+    def flush():
+        if len(run) >= 2 and rnd.random() < 0.34:
+            out.append(['multi', list(run)])
+        else:
+            out.extend(run)
+        del run[:]
+    for op in ops:
+        if op[0] in kinds:
+            run.append(op)
+        else:
+            flush()
+            out.append(op)
+    flush()
+    return out
 
 
 def generate(seed, tier):
@@ -97,7 +118,9 @@ def generate(seed, tier):
                 counter[0] += len(ms)
                 counter[1].append(sorted(ms))
                 top_ops.append(['view', None, sorted(ms)])
-        cases.append({'hist': [None, top_ops], 'async': rnd.random() < 0.5})
+        top_ops = group_multi(rnd, top_ops, ('method', 'merge'))
+        cases.append({'hist': [None, top_ops], 'async': rnd.random() < 0.5,
+                      'nametype': rnd.choice(['plain', 'plain', 'enum', 'strsub'])})
     # fixed scenarios: two views inheriting `show` from the shared base registered under one name (the later one wins); one
     # function registered under a prefix / an explicit name and then again as an unnamed Method / plain function
     for is_async in (False, True):
@@ -110,6 +133,17 @@ def generate(seed, tier):
             for second in (['method', 0, 'f', None], ['merge', ['b', [['method', 0, 'f', None]]]], ['merge', [None, [['plain', 0, 'f']]]],
                            ['add', 0, 'f', None]):
                 cases.append({'hist': [None, [first, second]], 'async': is_async})
+    # several kinds of arguments in ONE add_methods call, clashing on a name: the later argument wins, whatever its kind
+    for is_async in (False, True):
+        for pa in (None, 'a', 'a.b'):
+            full = 'ping' if pa is None else pa + '.ping'
+            reg = ['merge', [pa, [['add', 1, 'ping', None]]]]
+            for args in ([['method', 0, 'f', full], reg], [reg, ['method', 0, 'f', full]], [['method', 0, 'f', full], reg, ['method', 2, 'g', full]]):
+                cases.append({'hist': [None, [['multi', args]]], 'async': is_async})
+        for nt in ('enum', 'strsub'):
+            for pa in (None, 'a'):
+                cases.append({'hist': [None, [['merge', [pa, [['add', 0, 'f', 'sum'], ['method', 1, 'g', 'mul']]]], ['method', 2, 'h', 'top']]], 'async': is_async, 'nametype': nt})
+                cases.append({'hist': [None, [['merge', ['b', [['merge', [pa, [['add', 0, 'f', 'sum'], ['method', 1, 'g', 'mul']]]]]]]]], 'async': is_async, 'nametype': nt})
     for is_async in (False, True):
         # the same Method object added to two prefixed registries / twice to one
         for pa, pb in (('a', 'a.b'), ('a', None), (None, 'b'), ('a', 'a')):
@@ -127,13 +161,40 @@ def generate(seed, tier):
 
 _fns = {}
 _methods = {}
+_nametype = ['plain']
+_enum_cache = {}
+
+
+class _StrSub(str):
+    """A str subclass (an instance IS the name it holds) whose printed forms are something else."""
+    def __str__(self):
+        return 'STR<%s>' % str.__str__(self)
+
+    def __format__(self, spec):
+        return 'FMT<%s>' % str.__str__(self)
+
+    def __repr__(self):
+        return 'REPR<%s>' % str.__str__(self)
+
+
+def wrap_name(name):
+    """An explicit method name as the configured kind of str: a plain str, a member of a (str, Enum) class, a str subclass."""
+    if name is None or _nametype[0] == 'plain':
+        return name
+    if _nametype[0] == 'strsub':
+        return _StrSub(name)
+    if name not in _enum_cache:
+        import enum
+        _enum_cache[name] = enum.Enum('Names', {'MEMBER': name}, type=str).MEMBER
+    return _enum_cache[name]
+
 
 
 def mkmethod(fid, fname, xname, is_async):
     # one Method OBJECT per (function, explicit name) within an observation: registering it twice hands the same object over twice
     key = (fid, fname, xname, is_async)
     if key not in _methods:
-        _methods[key] = Method(mkfn(fid, fname, is_async), name=xname)
+        _methods[key] = Method(mkfn(fid, fname, is_async), name=wrap_name(xname))
     return _methods[key]
 
 
@@ -217,11 +278,21 @@ def build_registry(expr, is_async):
 def apply_ops(target, ops, is_async, top=False):
     for op in ops:
         if op[0] == 'add':
-            target.add(mkfn(op[1], op[2], is_async), name=op[3]) if not top else target.add(mkfn(op[1], op[2], is_async), op[3])
+            target.add(mkfn(op[1], op[2], is_async), name=wrap_name(op[3])) if not top else target.add(mkfn(op[1], op[2], is_async), wrap_name(op[3]))
         elif op[0] == 'method':
             target.add_methods(mkmethod(op[1], op[2], op[3], is_async))
         elif op[0] == 'plain':
             target.add_methods(mkfn(op[1], op[2], is_async))
+        elif op[0] == 'multi':
+            args = []
+            for sub in op[1]:
+                if sub[0] == 'method':
+                    args.append(mkmethod(sub[1], sub[2], sub[3], is_async))
+                elif sub[0] == 'plain':
+                    args.append(mkfn(sub[1], sub[2], is_async))
+                else:
+                    args.append(build_registry(sub[1], is_async))
+            target.add_methods(*args)
         elif op[0] == 'view':
             if top:
                 target.view(mkview(op[2], is_async))
@@ -240,6 +311,7 @@ def observe(case):
     _views.clear()
     _fns.clear()
     _methods.clear()
+    _nametype[0] = case.get('nametype', 'plain')
     disp = (AsyncDispatcher if is_async else Dispatcher)()
     apply_ops(disp, case['hist'][1], is_async, top=True)
     keys = sorted(disp.registry.keys())
@@ -272,7 +344,10 @@ def observe(case):
 def cexpr(expr):
     prefix, ops = expr
     out = []
+    flat = []
     for op in ops:
+        flat.extend(op[1] if op[0] == 'multi' else [op])       # one add_methods call with several arguments = one call per argument, in order
+    for op in flat:
         if op[0] == 'add':
             out.append('(OAdd %d%%nat %s %s)' % (op[1], cstr(op[2]), copt(op[3], cstr)))
         elif op[0] == 'method':
